@@ -30,6 +30,7 @@ class CallGraph:
         self.unresolved = []
         self._tables()
         self._field_stores()
+        self._table_driven_dlsym()
         self._callees = {}
         self._callers = None
 
@@ -91,6 +92,70 @@ class CallGraph:
                     if tgt:
                         self.field_targets.setdefault(key, set()).update(tgt.split('|'))
 
+    def _table_driven_dlsym(self):
+        """`for (n ...) { addr = dlsym(h, table[n].name); memcpy((char *) desc + table[n].slot, &addr, sizeof addr); }` with a
+        constant table of (symbol name, offsetof(descriptor, member)): every entry binds one descriptor member to one symbol"""
+        from .ir import parse_const
+        c_string_of_expr = lambda P_, e_, m_: c_string(P_, e_, m_)
+        P = self.prog
+        for m in P.mods:
+            for f in m.functions.values():
+                for call in [i for i in f.insts() if i.op == 'call' and i.callee == '@dlsym' and len(i.ops) > 1]:
+                    nd = f.defs.get(call.ops[1])
+                    if nd is None or nd.op != 'load':
+                        continue
+                    def table_of(ptr):
+                        x_, n_ = ptr, 0
+                        while n_ < 4:
+                            if isinstance(x_, str) and x_.startswith('@'):
+                                return x_
+                            d_ = f.defs.get(x_)
+                            if d_ is None or d_.op not in ('getelementptr', 'bitcast'):
+                                return None
+                            x_ = d_.ops[0]; n_ += 1
+                        return None
+                    tab = table_of(nd.ops[0])
+                    if tab is None:
+                        continue
+                    txt = m.globals.get(tab) or ''
+                    if not re.match(r'^((internal|private|dso_local|unnamed_addr|local_unnamed_addr)\s+)*constant\b', txt):
+                        continue
+                    try:
+                        pc_ = parse_const(parse_initializer(txt))
+                        rows = pc_[1] if isinstance(pc_, tuple) else None
+                    except Exception:
+                        rows = None
+                    if not isinstance(rows, list) or not rows or not all(isinstance(r_, list) and len(r_) == 2 for r_ in rows):
+                        continue
+                    # the store side: a byte-offset write into a descriptor whose offset is loaded from the same table
+                    sname = None
+                    for w in f.insts():
+                        dst = None
+                        if w.op == 'call' and (w.callee or '').startswith('@llvm.memcpy'):
+                            dst = w.ops[0]
+                        elif w.op == 'store':
+                            dst = strip_ptr_casts(f, w.ops[1])
+                        dg = f.defs.get(dst) if dst else None
+                        if dg is None or dg.op != 'getelementptr' or dg.gep_base_ty != 'i8' or len(dg.ops) != 2:
+                            continue
+                        od = f.defs.get(dg.ops[1])
+                        if od is None or od.op != 'load' or table_of(od.ops[0]) != tab:
+                            continue
+                        base = strip_ptr_casts(f, dg.ops[0])
+                        for bc in f.insts():
+                            if bc.op == 'bitcast' and strip_ptr_casts(f, bc.ops[0]) == base and bc.ty and bc.ty.startswith('%struct.') and bc.ty.endswith('*'):
+                                sname = bc.ty[len('%struct.'):-1]
+                    if sname is None:
+                        continue
+                    fields = P.struct_fields(sname) or []
+                    for name_expr, off in rows:
+                        nm = c_string_of_expr(P, name_expr, m) if isinstance(name_expr, str) else None
+                        if nm is None or not isinstance(off, int):
+                            continue
+                        fld = [fn_ for fn_, boff, bsz, _t in fields if boff // 8 == off]
+                        if fld:
+                            self.field_targets.setdefault((sname, fld[0]), set()).add(('@' + nm) if ('@' + nm) in P.fns else 'ext:' + nm)
+
     def _dlsym_source(self, f, store_ins, v):
         """value v stored: is it (a load from a local union that last received) a dlsym(h, "name") result?"""
         d = f.defs.get(strip_ptr_casts(f, v))
@@ -149,6 +214,19 @@ class CallGraph:
             return [c]
         d = f.defs.get(strip_ptr_casts(f, c))
         if d is not None and d.op == 'load':
+            # a call through a constant table of function pointers (`decoders[n](...)`): any entry of the table
+            x_, n_ = d.ops[0], 0
+            while n_ < 4 and not (isinstance(x_, str) and x_.startswith('@')):
+                dx = f.defs.get(x_)
+                if dx is None or dx.op not in ('getelementptr', 'bitcast'):
+                    break
+                x_ = dx.ops[0]; n_ += 1
+            if isinstance(x_, str) and x_.startswith('@') and x_ not in self.prog.fns:
+                txt = f.mod.globals.get(x_) or ''
+                if re.match(r'^((internal|private|dso_local|unnamed_addr|local_unnamed_addr)\s+)*constant\b', txt):
+                    ents = sorted({n2 for n2 in re.findall(r'@[\w.$]+', txt) if n2 in self.prog.fns})
+                    if ents:
+                        return ents
             root, steps = access_path(self.prog, f, d.ops[0])
             fl = [s for s in steps if s[0] == 'field']
             if fl:
